@@ -57,14 +57,14 @@ func objKey(v ssa.Value) string {
 }
 
 type flushShape struct {
-	F      *ssa.Function               // the function that drives the node store under MakeRoot
-	scope  map[*ssa.Function]bool      // F, the helpers it calls (not the node store), and goroutine bodies
-	gos    []*ssa.Go                   // go statements in scope
-	bodies map[*ssa.Go]*ssa.Function   // body started by each go
-	wkey   string                      // the WaitGroup waited on
-	wait   ssa.CallInstruction         // the wait event in F: wg.Wait itself, or a call to a helper that waits on every path
-	waitFn *ssa.Function               // the function containing the Wait call
-	waitIn ssa.CallInstruction         // the Wait call itself
+	F      *ssa.Function             // the function that drives the node store under MakeRoot
+	scope  map[*ssa.Function]bool    // F, the helpers it calls (not the node store), and goroutine bodies
+	gos    []*ssa.Go                 // go statements in scope
+	bodies map[*ssa.Go]*ssa.Function // body started by each go
+	wkey   string                    // the WaitGroup waited on
+	wait   ssa.CallInstruction       // the wait event in F: wg.Wait itself, or a call to a helper that waits on every path
+	waitFn *ssa.Function             // the function containing the Wait call
+	waitIn ssa.CallInstruction       // the Wait call itself
 }
 
 func findFlush(c *Ctx) *flushShape {
